@@ -3,7 +3,9 @@
 // sim::ReferenceSimulator under random and adversarial push/pop schedules and prints, for every rising
 // clock edge event, the inputs that were applied and the interface values sampled just before the edge.
 //
-// Usage: c15 <seed> <ncases> <eventsPerCase> [stream]      (`stream` = drive scl::strm::fifo instead, see runStreamCase)
+// Usage: c15 <seed> <ncases> <eventsPerCase> [stream|deep|gray]
+//   stream = drive scl::strm::fifo instead (see runStreamCase); deep = dual-clock FIFOs of depth 128/256/512 only;
+//   gray = tie scl::grayEncode/grayDecode at widths 1..16 (see runGrayCase; <eventsPerCase> = random samples per width > 12)
 //
 // Protocol (one block per case):
 //   case <id> k=<log2 depth> N=<depth> min=<minDepth> w=<payload bits> lat=<D|S<n>|L<n>|M<n>> dual=<0|1> fpush=<a> fpop=<b> lw=<n> lr=<n>
@@ -76,7 +78,7 @@ static scl::FifoLatency mkLat(const LatOpt &l) {
 // schedule modes
 enum Mode { RANDOM, BURST, DRAIN, BOTH, POLITE, PUSH_HEAVY, POP_HEAVY, IDLE, NMODES };
 
-static void runCase(uint64_t id, Rng rng, size_t nEvents, std::ostream &o) {
+static void runCase(uint64_t id, Rng rng, size_t nEvents, std::ostream &o, bool deep = false) {
 	// ---- configuration -------------------------------------------------------------------------
 	size_t k = rng.chance(1, 2) ? rng.range(1, 3) : rng.range(0, 6);
 	size_t N = size_t(1) << k;
@@ -99,6 +101,23 @@ static void runCase(uint64_t id, Rng rng, size_t nEvents, std::ostream &o) {
 	if (dual) {
 		static const std::vector<std::pair<unsigned, unsigned>> ratios = {{1,1},{1,2},{2,1},{1,3},{3,1},{2,3},{3,2},{3,4},{4,3},{5,3},{3,5},{7,5},{5,7},{1,7},{7,1},{100,133},{133,100},{9,10},{10,9},{1,16},{16,1}};
 		auto r = rng.pick(ratios); fa = r.first; fb = r.second;
+	}
+	if (deep) {
+		// deep dual-clock FIFOs: 8..10 bit pointers through the gray-code synchronisers (scl/cdc.cpp), unrelated clock ratios;
+		// the caller passes enough events for the pointers to pass 2^8 / 2^9 and to wrap
+		k = 7 + id % 3; N = size_t(1) << k;
+		minDepth = rng.range((N >> 1) + 1, N);
+		static const std::vector<size_t> dw = {8, 8, 13, 16};
+		w = rng.pick(dw);
+		dual = true;
+		switch (rng.below(4)) {
+			case 0: lat = {'D', 0}; break;
+			case 1: lat = {'S', (size_t)rng.range(4, 6)}; break;
+			case 2: lat = {'L', (size_t)rng.range(0, 5)}; break;
+			default: lat = {'M', (size_t)rng.range(4, 7)}; break;
+		}
+		static const std::vector<std::pair<unsigned, unsigned>> dr = {{100,77},{77,100},{100,133},{133,100},{7,5},{5,7},{9,10},{10,9},{3,2},{13,11},{11,13},{1,1}};
+		auto r = rng.pick(dr); fa = r.first; fb = r.second;
 	}
 	bool varyLevels = rng.chance(1, 4);
 
@@ -367,11 +386,46 @@ static void runStreamCase(uint64_t id, Rng rng, size_t nEvents, std::ostream &o)
 	o << "end\n";
 }
 
+// ---- gray code primitives (scl/cdc.cpp : grayEncode / grayDecode) ------------------------------------
+// One case per width w = 1..16: exhaustive for w <= 12, boundary + random values above.
+//   case <id> mode=gray w=<w>
+//   g <x> <grayEncode(x)> <grayDecode(x)> <grayDecode(grayEncode(x))>          (bit strings, MSB first)
+static void runGrayCase(uint64_t id, Rng rng, size_t nSamples, std::ostream &o) {
+	size_t w = 1 + id % 16;
+	DesignScope design;
+	auto ipX = pinIn(BitWidth(w)).setName("x");
+	hlim::Node_Pin *pX = ipX.node();
+	UInt x = ipX;
+	hlim::Node_Pin *oEnc = pinOut(scl::grayEncode(x)).setName("enc").node();
+	hlim::Node_Pin *oDec = pinOut(scl::grayDecode((BVec)x)).setName("dec").node();
+	hlim::Node_Pin *oRt = pinOut(scl::grayDecode(scl::grayEncode(x))).setName("rt").node();
+	design.postprocess();
+	o << "case " << id << " mode=gray w=" << w << "\n";
+	sim::ReferenceSimulator sim(false);
+	sim.compileProgram(design.getCircuit());
+	sim.powerOn();
+	auto evalOne = [&](uint64_t v) {
+		sim.simProcSetInputPin(pX, sim::convertToExtended(vh::bitsFromString(toBits(v, w))));
+		sim.reevaluate();
+		auto get = [&](hlim::Node_Pin *pin) { return vh::bitsToString(sim.getValueOfOutput(pin->getDriver(0))); };
+		o << "g " << toBits(v, w) << ' ' << get(oEnc) << ' ' << get(oDec) << ' ' << get(oRt) << '\n';
+	};
+	if (w <= 12) {
+		for (uint64_t v = 0; v < (uint64_t(1) << w); v++) evalOne(v);
+	} else {
+		uint64_t mask = (uint64_t(1) << w) - 1;
+		for (size_t j = 0; j <= w; j++) { evalOne((uint64_t(1) << j) & mask); evalOne(((uint64_t(1) << j) - 1) & mask); evalOne((~((uint64_t(1) << j) - 1)) & mask); }
+		for (size_t i = 0; i < nSamples; i++) evalOne(rng.next() & mask);
+	}
+	o << "end\n";
+}
+
 int main(int argc, char **argv) {
 	uint64_t seed = vh::argU64(argc, argv, 1, 1);
 	uint64_t ncases = vh::argU64(argc, argv, 2, 10);
 	uint64_t nEvents = vh::argU64(argc, argv, 3, 200);
-	bool streamMode = argc > 4 && std::string(argv[4]) == "stream";
+	std::string modeArg = argc > 4 ? std::string(argv[4]) : std::string();
+	bool streamMode = modeArg == "stream", deepMode = modeArg == "deep", grayMode = modeArg == "gray";
 	std::ios::sync_with_stdio(false);
 	// gatery may drop debug visualisations (*.dot) into the cwd when a design check fails: keep them out of the tree
 	{ std::error_code ec; std::filesystem::current_path(std::filesystem::temp_directory_path(), ec); }
@@ -381,7 +435,9 @@ int main(int argc, char **argv) {
 		Rng r = master.fork();
 		std::ostringstream os;
 		try {
-			if (streamMode) runStreamCase(c, r, nEvents, os); else runCase(c, r, nEvents, os);
+			if (streamMode) runStreamCase(c, r, nEvents, os);
+			else if (grayMode) runGrayCase(c, r, nEvents, os);
+			else runCase(c, r, nEvents, os, deepMode);
 		} catch (const std::exception &e) {
 			std::string msg = e.what();
 			for (auto &ch : msg) if (ch == '\n') ch = ' ';
